@@ -267,7 +267,7 @@ theorem step_wsim (w w' : World) (hw : WSim w w') (op : Op) :
       obtain ⟨s', hl', hs⟩ := hw.liveC_some hl
       rw [hl']
       exact ⟨rfl, hw.setNone c _ _ _⟩
-  | mkBlock c n =>
+  | mkBlock c n len =>
     simp only [step]
     cases hl : w.liveC c with
     | none => rw [hw.liveC_none hl]; exact ⟨rfl, hw.tabs _ _ _⟩
@@ -275,10 +275,10 @@ theorem step_wsim (w w' : World) (hw : WSim w w') (op : Op) :
       obtain ⟨s', hl', hs⟩ := hw.liveC_some hl
       rw [hl']
       try simp only []
-      have hc := cong_sim (createBlock_cong n false) hs
+      have hc := cong_sim (createBlock_cong n len) hs
       try simp only [] at hc
-      generalize (createBlock s n) = r at hc ⊢
-      generalize (createBlock s' n) = r' at hc ⊢
+      generalize (createBlock s n len) = r at hc ⊢
+      generalize (createBlock s' n len) = r' at hc ⊢
       obtain ⟨s1, e1⟩ := r
       obtain ⟨s1', e1'⟩ := r'
       obtain ⟨he, hs1⟩ := hc
@@ -318,7 +318,7 @@ theorem step_wsim (w w' : World) (hw : WSim w w') (op : Op) :
       obtain ⟨he, hs1⟩ := hc
       try simp only [] at he; subst he
       exact ⟨rfl, hw.tables _ hs1 _ _ _⟩
-  | mkFrame hh n =>
+  | mkFrame hh n len =>
     simp only [step]
     cases hl : w.liveH hh with
     | none => rw [hw.liveH_none hl]; exact ⟨rfl, hw.tabs _ _ _⟩
@@ -327,10 +327,10 @@ theorem step_wsim (w w' : World) (hw : WSim w w') (op : Op) :
       obtain ⟨s', hl', hs⟩ := hw.liveH_some hl
       rw [hl']
       try simp only []
-      have hc := cong_sim (createFrame_cong e.h n false) hs
+      have hc := cong_sim (createFrame_cong e.h n len) hs
       try simp only [] at hc
-      generalize (createFrame s e.h n) = r at hc ⊢
-      generalize (createFrame s' e.h n) = r' at hc ⊢
+      generalize (createFrame s e.h n len) = r at hc ⊢
+      generalize (createFrame s' e.h n len) = r' at hc ⊢
       obtain ⟨s1, e1⟩ := r
       obtain ⟨s1', e1'⟩ := r'
       obtain ⟨he, hs1⟩ := hc
